@@ -527,12 +527,36 @@ func checkParam(c paramCase, o *kit.Obs) error {
 
 type polyCase struct {
 	Cuts [][4]float64 `json:"cuts"` // normal xyz, max
+	// Apex > 0: instead of the box, a cone of Apex >= 4 planes through the common vertex (0,0,1) closed by the
+	// plane z >= -1 (a pyramid: more than three planes meet at one vertex), plus the cuts.
+	Apex int `json:"apex,omitempty"`
+	// Scales rescale constraint i (normal and bound together) by 10^Scales[i]: the same half-space, so the
+	// same polytope; the library documents its tolerance as scaling with the normals.
+	Scales []float64 `json:"scales,omitempty"`
 }
 
 func checkPolytope(c polyCase, o *kit.Obs) error {
-	p := model3d.NewConvexPolytopeRect(model3d.XYZ(-1, -1, -1), model3d.XYZ(1, 1, 1))
+	var p model3d.ConvexPolytope
+	if c.Apex > 0 {
+		o.Labelf("apex-planes:%d", c.Apex)
+		for i := 0; i < c.Apex; i++ {
+			a := 2 * math.Pi * float64(i) / float64(c.Apex)
+			n := model3d.XYZ(math.Cos(a), math.Sin(a), 0.5) // plane through (0,0,1): n.p <= 0.5
+			p = append(p, &model3d.LinearConstraint{Normal: n, Max: 0.5})
+		}
+		p = append(p, &model3d.LinearConstraint{Normal: model3d.XYZ(0, 0, -1), Max: 1})
+	} else {
+		p = model3d.NewConvexPolytopeRect(model3d.XYZ(-1, -1, -1), model3d.XYZ(1, 1, 1))
+	}
 	for _, k := range c.Cuts {
 		p = append(p, &model3d.LinearConstraint{Normal: model3d.XYZ(k[0], k[1], k[2]), Max: k[3]})
+	}
+	for i, e := range c.Scales {
+		if i < len(p) && e != 0 {
+			f := math.Pow(10, e)
+			p[i] = &model3d.LinearConstraint{Normal: p[i].Normal.Scale(f), Max: p[i].Max * f}
+			o.Label("rescaled-constraint")
+		}
 	}
 	tris := m3.Tris(p.Mesh())
 	o.NonTrivial()
@@ -545,7 +569,7 @@ func checkPolytope(c polyCase, o *kit.Obs) error {
 	for _, t := range tris {
 		for _, v := range t {
 			for _, l := range p {
-				if d := m3.C3(v).Dot(l.Normal) - l.Max; d > 1e-6 {
+				if d := (m3.C3(v).Dot(l.Normal) - l.Max) / l.Normal.Norm(); d > 1e-6 {
 					return fmt.Errorf("vertex %v violates a constraint by %g", v, d)
 				}
 			}
@@ -557,6 +581,19 @@ func checkPolytope(c polyCase, o *kit.Obs) error {
 func genPolytope(t *rapid.T) polyCase {
 	n := rapid.IntRange(0, 6).Draw(t, "ncuts")
 	var c polyCase
+	if rapid.IntRange(0, 2).Draw(t, "pyramid") == 0 {
+		c.Apex = rapid.IntRange(4, 8).Draw(t, "apex")
+		n = rapid.IntRange(0, 2).Draw(t, "ncuts2")
+	}
+	if rapid.Bool().Draw(t, "rescale") {
+		for i := 0; i < 6+c.Apex+n; i++ {
+			e := 0.0
+			if rapid.Bool().Draw(t, "rs") {
+				e = float64(rapid.IntRange(-6, 12).Draw(t, "exp"))
+			}
+			c.Scales = append(c.Scales, e)
+		}
+	}
 	for i := 0; i < n; i++ {
 		d := gen.Dir3(t, "n")
 		// avoid normals (anti)parallel to the box axes duplicating box faces exactly: jitter them generically
@@ -581,7 +618,7 @@ func genPolytope(t *rapid.T) polyCase {
 // ---- RectSet: integer boxes that touch along faces, edges and corners
 
 type rectSetCase struct {
-	Ops [][7]int `json:"ops"` // add(1)/remove(0), min xyz, size xyz
+	Ops [][7]int `json:"ops"` // add(1)/remove(0)/AddRectSet(2)/RemoveRectSet(3), min xyz, size xyz; set ops use a two-box set
 }
 
 func genRectSet(t *rapid.T) rectSetCase {
@@ -591,6 +628,9 @@ func genRectSet(t *rapid.T) rectSetCase {
 		add := 1
 		if i > 0 && rapid.IntRange(0, 3).Draw(t, "remove") == 0 {
 			add = 0
+		}
+		if i > 0 && rapid.IntRange(0, 2).Draw(t, "setop") == 0 {
+			add += 2 // the same change through AddRectSet / RemoveRectSet with a set of two boxes
 		}
 		c.Ops = append(c.Ops, [7]int{add,
 			rapid.IntRange(0, 3).Draw(t, "x"), rapid.IntRange(0, 3).Draw(t, "y"), rapid.IntRange(0, 3).Draw(t, "z"),
@@ -605,18 +645,36 @@ func checkRectSet(c rectSetCase, o *kit.Obs) error {
 	for _, op := range c.Ops {
 		r := &model3d.Rect{MinVal: model3d.XYZ(float64(op[1]), float64(op[2]), float64(op[3])),
 			MaxVal: model3d.XYZ(float64(op[1]+op[4]), float64(op[2]+op[5]), float64(op[3]+op[6]))}
-		if op[0] == 1 {
-			rs.Add(r)
-		} else {
-			rs.Remove(r)
-		}
-		for x := op[1]; x < op[1]+op[4]; x++ {
-			for y := op[2]; y < op[2]+op[5]; y++ {
-				for z := op[3]; z < op[3]+op[6]; z++ {
-					grid[x][y][z] = op[0] == 1
+		fill := func(ox, oy, oz int, v bool) {
+			for x := ox; x < ox+op[4]; x++ {
+				for y := oy; y < oy+op[5]; y++ {
+					for z := oz; z < oz+op[6]; z++ {
+						grid[x][y][z] = v
+					}
 				}
 			}
 		}
+		switch op[0] {
+		case 1:
+			rs.Add(r)
+		case 0:
+			rs.Remove(r)
+		default:
+			// a set of two boxes: r and r shifted by (1,1,0) (they overlap or touch along an edge)
+			other := toolbox3d.NewRectSet()
+			other.Add(r)
+			sh := model3d.XYZ(1, 1, 0)
+			other.Add(&model3d.Rect{MinVal: r.MinVal.Add(sh), MaxVal: r.MaxVal.Add(sh)})
+			if op[0] == 2 {
+				rs.AddRectSet(other)
+			} else {
+				rs.RemoveRectSet(other)
+			}
+			fill(op[1]+1, op[2]+1, op[3], op[0] == 2)
+			o.Label("set-operation")
+			o.NonTrivial()
+		}
+		fill(op[1], op[2], op[3], op[0] == 1 || op[0] == 2)
 	}
 	tris := m3.Tris(rs.Mesh())
 	var in, out []kit.V3
@@ -768,8 +826,8 @@ func TestProp(t *testing.T) {
 		kit.Enum[gen.Lattice2]{Name: "C01/bitmap/enum-4x4", N: 65536, QuickStride: 2, At: func(i int) gen.Lattice2 { return gen.Lattice2FromUint(4, 4, uint64(i)) }, Check: checkBitmap},
 		kit.Clause[gen.Lattice2]{Name: "C01/bitmap/random", Quick: 1500, Thorough: 40000, Gen: func(t *rapid.T) gen.Lattice2 { return gen.Lattice2Gen(t, 9, "bitmap") }, Check: checkBitmap},
 		kit.Clause[paramCase]{Name: "C01/gen/parametric", Quick: 600, Thorough: 15000, Gen: genParam, Check: checkParam},
-		kit.Clause[polyCase]{Name: "C01/gen/polytope", Quick: 300, Thorough: 8000, Gen: genPolytope, Check: checkPolytope},
-		kit.Clause[rectSetCase]{Name: "C01/gen/rectset", Quick: 600, Thorough: 15000, Gen: genRectSet, Check: checkRectSet},
+		kit.Clause[polyCase]{Name: "C01/gen/polytope", Quick: 3000, Thorough: 60000, Gen: genPolytope, Check: checkPolytope},
+		kit.Clause[rectSetCase]{Name: "C01/gen/rectset", Quick: 6000, Thorough: 120000, Gen: genRectSet, Check: checkRectSet},
 		kit.Clause[hmCase]{Name: "C01/gen/heightmap", Quick: 600, Thorough: 15000, Gen: genHM, Check: checkHM},
 	)
 }
